@@ -2,10 +2,10 @@ package scen
 
 import (
 	"bytes"
-	"time"
 	"fmt"
 	"math/rand/v2"
 	"sync"
+	"time"
 
 	"github.com/lugu/qiloop/bus/net"
 
@@ -43,6 +43,10 @@ func (c10) Gen(r *rand.Rand, tier string, run int) *core.Case {
 	c.Params["transport"] = []int{0, 0, 1, 2, 3, 4}[r.IntN(6)]
 	c.Params["concurrent_install"] = r.IntN(2)
 	c.Params["fillers"] = []int{0, 0, 0, 9, 10, 11}[r.IntN(6)]
+	// handlers that come and go while the traffic flows
+	c.Params["oneshots"] = []int{0, 0, 1, 2, 3}[r.IntN(5)]
+	c.Params["late"] = []int{0, 0, 1, 2}[r.IntN(4)]
+	c.Params["late_delay"] = r.IntN(40)
 	if r.IntN(8) == 0 {
 		// the receiver stops reading for a few simulated seconds while the
 		// senders are blocked in the middle of their messages, then resumes:
@@ -80,6 +84,11 @@ type c10handler struct {
 	fn  bool
 	mu  sync.Mutex
 	got []*net.Message
+	// oneshot: the filter gives the handler up with the first message it
+	// selects (what a reply handler does)
+	oneshot bool
+	// late: registered while the traffic flows, by a goroutine of its own
+	late bool
 }
 
 func (h *c10handler) match(typ uint8, service, id uint32) bool {
@@ -190,7 +199,22 @@ func (c10) Run(c *core.Case, env *core.Env) {
 	if hr.IntN(3) == 0 {
 		st.handlers = append(st.handlers, &c10handler{kind: "parity", arg: uint32(hr.IntN(2)), small: true, queue: make(chan *net.Message, 1)})
 	}
+	for i := 0; i < c.P("oneshots", 0); i++ {
+		h := &c10handler{oneshot: true, queue: make(chan *net.Message, total+1)}
+		switch hr.IntN(3) {
+		case 0:
+			h.kind = "all"
+		case 1:
+			h.kind, h.arg = "parity", uint32(hr.IntN(2))
+		default:
+			h.kind, h.arg = "service", uint32(hr.IntN(senders))
+		}
+		pos := hr.IntN(len(st.handlers) + 1)
+		st.handlers = append(st.handlers[:pos:pos], append([]*c10handler{h}, st.handlers[pos:]...)...)
+	}
+	var rx net.EndPoint
 	install := func(e net.EndPoint) {
+		rx = e
 		// the handlers are registered one after the other, or all at once
 		// from as many goroutines: each must get a slot of its own
 		// sometimes the table is first filled with handlers that go away
@@ -212,7 +236,11 @@ func (c10) Run(c *core.Case, env *core.Env) {
 		for k, h := range st.handlers {
 			k, h := k, h
 			filter := func(hdr *net.Header) (bool, bool) {
-				return h.match(hdr.Type, hdr.Service, hdr.ID), true
+				m := h.match(hdr.Type, hdr.Service, hdr.ID)
+				if h.oneshot {
+					return m, !m
+				}
+				return m, true
 			}
 			register := func() {
 				if h.fn {
@@ -300,6 +328,22 @@ func (c10) Run(c *core.Case, env *core.Env) {
 		by[op.Actor] = append(by[op.Actor], op)
 	}
 	var wg sync.WaitGroup
+	for k := 0; k < c.P("late", 0) && rx != nil; k++ {
+		h := &c10handler{kind: "all", late: true, queue: make(chan *net.Message, total+1)}
+		st.mu.Lock()
+		st.handlers = append(st.handlers, h)
+		st.mu.Unlock()
+		wg.Add(1)
+		go func(k int) {
+			defer wg.Done()
+			zzsim.SetNode("receiver")
+			for j := 0; j < c.P("late_delay", 0)*(k+1); j++ {
+				zzsim.Yield("h.late-handler")
+			}
+			rx.MakeHandler(func(hdr *net.Header) (bool, bool) { return true, true }, h.queue, nil)
+			env.Probe("handlers-registered-during-the-traffic")
+		}(k)
+	}
 	if n := c.P("doomed", 0); n > 0 {
 		zzsim.SetNode("sender")
 		da, db := simnet.BufferedPair("sender", "nobody")
@@ -420,7 +464,9 @@ func (c10) Check(c *core.Case, env *core.Env, res zzsim.Result, v *core.Verdict)
 				select {
 				case m := <-h.queue:
 					if m == nil {
-						bad("handler-closed", "handler %d queue closed on a healthy connection", hi)
+						if !h.oneshot || len(got) == 0 {
+							bad("handler-closed", "handler %d queue closed on a healthy connection", hi)
+						}
 					} else {
 						got = append(got, m.Header.ID)
 						w := want[m.Header.ID]
@@ -438,6 +484,27 @@ func (c10) Check(c *core.Case, env *core.Env, res zzsim.Result, v *core.Verdict)
 				if h.match(f.Type, f.Service, f.ID) {
 					exp = append(exp, f.ID)
 				}
+			}
+			if h.oneshot {
+				// exactly the first message its filter selects
+				if len(exp) > 1 {
+					exp = exp[:1]
+				}
+				env.Probe("one-shot-handlers")
+			}
+			if h.late {
+				// everything that arrived from some moment on
+				ok := false
+				for k := 0; k <= len(exp); k++ {
+					if fmt.Sprint(got) == fmt.Sprint(exp[k:]) {
+						ok = true
+						break
+					}
+				}
+				if !ok {
+					bad("late-handler-not-a-suffix", "handler %d, registered while the traffic flowed, received %x: not what arrived from some moment on (arrival order %x)", hi, got, exp)
+				}
+				continue
 			}
 			if h.small {
 				// only: a subsequence, in order, without duplicates
